@@ -101,7 +101,7 @@ fn c03_rotate(n: usize) -> u8 {
         }
     }
 }
-// HARNESS props=C03,C09 clauses=file tier=quick profile=gw_rot1 shape="candidate N=1; epoch, delay, times full u64; duplicate/witness entries symbolic"
+// HARNESS props=C03,C09 tier=quick profile=gw_rot1 shape="candidate N=1; epoch, delay, times full u64; duplicate/witness entries symbolic"
 #[kani::proof]
 #[kani::unwind(114)]
 fn c03_rotate_n1() {
@@ -109,7 +109,7 @@ fn c03_rotate_n1() {
     kani::cover!(o == 1, "VERIF:reach:set installed");
     kani::cover!(o == 0, "VERIF:reach:set refused");
 }
-// HARNESS props=C03,C09 clauses=file tier=quick profile=gw_rot2 shape="candidate N=2"
+// HARNESS props=C03,C09 tier=quick profile=gw_rot2 shape="candidate N=2"
 #[kani::proof]
 #[kani::unwind(166)]
 fn c03_rotate_n2() {
@@ -117,7 +117,7 @@ fn c03_rotate_n2() {
     kani::cover!(o == 1, "VERIF:reach:set installed");
     kani::cover!(o == 0, "VERIF:reach:set refused");
 }
-// HARNESS props=C03 clauses=file tier=quick profile=gw_rot1 shape="empty candidate"
+// HARNESS props=C03 tier=quick profile=gw_rot1 shape="empty candidate"
 #[kani::proof]
 #[kani::unwind(114)]
 fn c03_rotate_n0() {
@@ -170,7 +170,7 @@ fn c03_init(ni: usize) -> u8 {
         }
     }
 }
-// HARNESS props=C03,C09 clauses=file tier=quick profile=gw_init shape="constructor with 1 initial set (N=1)"
+// HARNESS props=C03,C09 tier=quick profile=gw_init shape="constructor with 1 initial set (N=1)"
 #[kani::proof]
 #[kani::unwind(114)]
 fn c03_init_1() {
@@ -178,7 +178,7 @@ fn c03_init_1() {
     kani::cover!(o == 1, "VERIF:reach:constructed");
     kani::cover!(o == 0, "VERIF:reach:construction failed");
 }
-// HARNESS props=C03 clauses=file tier=quick profile=gw_init shape="constructor with 2 initial sets (N=1 each), possibly equal"
+// HARNESS props=C03 tier=quick profile=gw_init shape="constructor with 2 initial sets (N=1 each), possibly equal"
 #[kani::proof]
 #[kani::unwind(114)]
 fn c03_init_2() {
@@ -186,7 +186,7 @@ fn c03_init_2() {
     kani::cover!(o == 1, "VERIF:reach:constructed");
     kani::cover!(o == 0, "VERIF:reach:construction failed");
 }
-// HARNESS props=C03 clauses=file tier=quick profile=gw_init shape="constructor with no initial set"
+// HARNESS props=C03 tier=quick profile=gw_init shape="constructor with no initial set"
 #[kani::proof]
 #[kani::unwind(114)]
 fn c03_init_0() {
